@@ -27,6 +27,9 @@ pub const NAMES: [&str; 3] = ["tool chain", "deps", "deps.v2"];
 pub struct ResScript {
     metadata: MetaVal,
     env: Option<Vec<EnvEntry>>,
+    /// update only, with `env: None`: return the env of the LayerData the callback was given (what the trait's default
+    /// `update` does) — the layer's environment must then stay what it was
+    inherit_env: bool,
     execd: Vec<(String, Vec<u8>)>,
     sboms: Vec<(u8, Vec<u8>)>,
     plain: Vec<(String, Vec<u8>)>,
@@ -96,7 +99,7 @@ struct Scripted<M: MetaT> {
 }
 
 impl<M: MetaT> Scripted<M> {
-    fn result(&self, rs: &ResScript, layer_path: &Path) -> LayerResult<M> {
+    fn result(&self, rs: &ResScript, layer_path: &Path, prior: Option<&libcnb::layer_env::LayerEnv>) -> LayerResult<M> {
         for (p, d) in &rs.plain {
             let f = layer_path.join(p);
             std::fs::create_dir_all(f.parent().unwrap()).unwrap();
@@ -112,7 +115,10 @@ impl<M: MetaT> Scripted<M> {
         let sboms: BTreeMap<u8, Vec<u8>> = rs.sboms.iter().cloned().collect();
         LayerResult {
             metadata: M::from_val(&rs.metadata),
-            env: rs.env.as_ref().map(|e| to_layer_env(e)),
+            env: match (rs.inherit_env && rs.env.is_none(), prior) {
+                (true, Some(p)) => Some(p.clone()),
+                _ => rs.env.as_ref().map(|e| to_layer_env(e)),
+            },
             exec_d_programs: execd.iter().map(|(n, d)| (n.clone(), exec_d_source(&self.side, n, d))).collect::<HashMap<_, _>>(),
             sboms: sboms.iter().map(|(f, d)| Sbom::from_bytes(sbom_format(*f), d.clone())).collect(),
         }
@@ -133,7 +139,7 @@ impl<M: MetaT> Layer for Scripted<M> {
         self.log.borrow_mut().push(CLog::Create { listing, path: layer_path.to_path_buf() });
         match &self.script.create {
             None => Err(HErr("scripted".into())),
-            Some(rs) => Ok(self.result(rs, layer_path)),
+            Some(rs) => Ok(self.result(rs, layer_path, None)),
         }
     }
 
@@ -151,7 +157,7 @@ impl<M: MetaT> Layer for Scripted<M> {
         self.log.borrow_mut().push(CLog::Update { seen: layer_data.content_metadata.metadata.to_seen() });
         match &self.script.update {
             None => Err(HErr("scripted".into())),
-            Some(rs) => Ok(self.result(rs, &layer_data.path)),
+            Some(rs) => Ok(self.result(rs, &layer_data.path, Some(&layer_data.env))),
         }
     }
 
@@ -191,10 +197,12 @@ fn run_handle<M: MetaT>(bc: &BuildContext<HB>, name: &LayerName, script: &Script
 
 // ---------------- model ----------------
 
-fn apply_result(l: &mut MLayer, m: MType, rs: &ResScript, types: (bool, bool, bool)) {
+fn apply_result(l: &mut MLayer, m: MType, rs: &ResScript, types: (bool, bool, bool), is_update: bool) {
     l.dir = true;
     l.toml = Some(MToml { types: Some(types), metadata: Some(replace_tv(m, &rs.metadata)) });
-    l.set_env(rs.env.as_deref().unwrap_or(&[]));
+    if !(is_update && rs.inherit_env && rs.env.is_none()) {
+        l.set_env(rs.env.as_deref().unwrap_or(&[]));
+    }
     l.execd = rs.execd.iter().cloned().collect();
     l.sboms = rs.sboms.iter().cloned().collect();
     for (p, d) in &rs.plain {
@@ -242,7 +250,7 @@ fn model_handle(l: &mut MLayer, path: &Path, m: MType, s: &Script) -> (Result<()
                     return match &s.update {
                         None => (Err(()), log),
                         Some(rs) => {
-                            apply_result(l, m, rs, s.types);
+                            apply_result(l, m, rs, s.types, true);
                             (Ok(()), log)
                         }
                     };
@@ -261,13 +269,13 @@ fn model_handle(l: &mut MLayer, path: &Path, m: MType, s: &Script) -> (Result<()
     match &s.create {
         None => (Err(()), log),
         Some(rs) => {
-            apply_result(l, m, rs, s.types);
+            apply_result(l, m, rs, s.types, false);
             (Ok(()), log)
         }
     }
 }
 
-fn implicit_of(l: &MLayer, layer_path: &Path) -> Vec<Implicit> {
+pub fn implicit_of(l: &MLayer, layer_path: &Path) -> Vec<Implicit> {
     let has = |d: &str| l.plain.keys().chain(l.links.keys()).any(|p| p.starts_with(&format!("{d}/")));
     let p = |d: &str| layer_path.join(d).as_os_str().as_bytes().to_vec();
     let mut v = vec![];
@@ -430,7 +438,7 @@ pub fn run_history(scratch: &Path, h: &[Op]) -> HistOutcome {
 fn res_json(r: &Option<ResScript>) -> Value {
     match r {
         None => json!(null),
-        Some(r) => json!({"metadata": r.metadata.to_json(), "env": r.env.as_ref().map(|e| entries_to_json(e)),
+        Some(r) => json!({"metadata": r.metadata.to_json(), "env": r.env.as_ref().map(|e| entries_to_json(e)), "inherit_env": r.inherit_env,
             "execd": r.execd.iter().map(|(n, d)| json!([n, bytes_to_json(d)])).collect::<Vec<_>>(),
             "sboms": r.sboms.iter().map(|(f, d)| json!([f, bytes_to_json(d)])).collect::<Vec<_>>(),
             "plain": r.plain.iter().map(|(n, d)| json!([n, bytes_to_json(d)])).collect::<Vec<_>>(),
@@ -445,6 +453,7 @@ fn res_from_json(v: &Value) -> Option<ResScript> {
     Some(ResScript {
         metadata: MetaVal::from_json(&v["metadata"]),
         env: if v["env"].is_null() { None } else { Some(entries_from_json(&v["env"])) },
+        inherit_env: v["inherit_env"].as_bool().unwrap_or(false),
         execd: nb(&v["execd"]),
         sboms: v["sboms"].as_array().unwrap().iter().map(|p| (p[0].as_u64().unwrap() as u8, json_to_bytes(&p[1]))).collect(),
         plain: nb(&v["plain"]),
@@ -493,11 +502,13 @@ fn res_strategy() -> impl Strategy<Value = Option<ResScript>> {
         proptest::collection::vec((prop_oneof![Just("a".to_string()), Just("prog two".to_string()), Just("z.sh".to_string())], small_bytes()), 0..4),
         proptest::collection::vec((0u8..3, small_bytes()), 0..4),
         proptest::collection::vec((prop_oneof![Just("file.txt".to_string()), Just("bin/tool".to_string()), Just("lib/libx.so".to_string()), Just("include/x.h".to_string()), Just("pkgconfig/x.pc".to_string()), Just("data/n/deep".to_string())], small_bytes()), 0..3),
+        any::<bool>(),
     )
-        .prop_map(|(metadata, env, execd, sboms, plain)| {
+        .prop_map(|(metadata, env, execd, sboms, plain, inherit)| {
+            let inherit_env = inherit && env.is_none();
             // one result in five also leaves a symbolic link (dangling or not) in the layer
             let links = if (plain.len() + execd.len() + sboms.len()) % 5 == 1 { vec![("current".to_string(), if execd.is_empty() { "does/not/exist".to_string() } else { "file.txt".to_string() })] } else { vec![] };
-            ResScript { metadata, env, execd, sboms, plain, links }
+            ResScript { metadata, env, inherit_env, execd, sboms, plain, links }
         });
     proptest::option::weighted(0.9, r)
 }
@@ -558,12 +569,13 @@ fn reduced_alphabet() -> Vec<Op> {
             EnvEntry { scope: Sc::Process("web".into()), beh: Beh::Append, name: b"A.B".to_vec(), value: b"v".to_vec() },
             EnvEntry { scope: Sc::Launch, beh: Beh::Default, name: b"X".to_vec(), value: vec![] },
         ]),
+        inherit_env: false,
         execd: vec![("p".into(), b"#!".to_vec())],
         sboms: vec![(2, b"{}".to_vec())],
         plain: vec![("bin/tool".into(), b"x".to_vec())],
         links: vec![("current".into(), "does/not/exist".into())],
     };
-    let plain = ResScript { metadata: MetaVal::Generic(TV::table(vec![("other", TV::Int(1))])), env: None, execd: vec![], sboms: vec![], plain: vec![("file.txt".into(), b"y".to_vec())], links: vec![] };
+    let plain = ResScript { metadata: MetaVal::Generic(TV::table(vec![("other", TV::Int(1))])), env: None, inherit_env: true, execd: vec![], sboms: vec![], plain: vec![("file.txt".into(), b"y".to_vec())], links: vec![] };
     let mut ops = vec![];
     for m in [MType::V1, MType::V2] {
         for strategy in [Strat::Keep, Strat::Update, Strat::Recreate, Strat::Err] {
@@ -578,7 +590,7 @@ fn reduced_alphabet() -> Vec<Op> {
 }
 
 pub fn run(ctx: &Ctx) {
-    ctx.set_rule("bounded-exhaustive: every history [h], [h, h2], [h, restore, h2] over a reduced alphabet of 72 scripted handle_layer calls on one layer (metadata type V1/V2 x strategy keep/update/recreate/error x migrate recreate/replace/error x create+update results rich/plain/error) = 10 440 histories; sampled: histories of handle_layer calls over 3 layer names interleaved with simulated lifecycle restores; the Layer implementation is fully scripted per call: types (8 flag combinations), metadata type {generic, V1, V2} (alternating types reach the migration path after restores), existing_layer_strategy in {keep, update, recreate, error}, migrate_incompatible_metadata in {recreate, replace with a valid value, error}, create/update returning metadata, env None | Some(entries over all/build/launch/process with byte-string names), 0..3 exec.d programs, 0..3 SBOMs, plain files written into the layer path (also bin/ lib/ include/ pkgconfig/), or an error. Oracle after EVERY call: callback log (which callbacks, once, in order, with which metadata/path, create on an empty directory) == model; Err iff a callback returned Err; disk == model (files bytewise via an independent env renderer, content metadata via Python tomllib, SBOMs); other layers byte-identical; returned LayerData (name, path, types, metadata, env applied for all scopes incl. per-process and unknown process to 3 starting envs, incl. implicit layer paths) == disk. Non-trivial: >= 2 handle_layer calls on the same name separated by a restore, with a layer result that carried a per-process env entry, an SBOM or an exec.d program; distinct = hash of the operation list.");
+    ctx.set_rule("bounded-exhaustive: every history [h], [h, h2], [h, restore, h2] over a reduced alphabet of 72 scripted handle_layer calls on one layer (metadata type V1/V2 x strategy keep/update/recreate/error x migrate recreate/replace/error x create+update results rich/plain/error) = 10 440 histories; sampled: histories of handle_layer calls over 3 layer names interleaved with simulated lifecycle restores; the Layer implementation is fully scripted per call: types (8 flag combinations), metadata type {generic, V1, V2} (alternating types reach the migration path after restores), existing_layer_strategy in {keep, update, recreate, error}, migrate_incompatible_metadata in {recreate, replace with a valid value, error}, create/update returning metadata, env None | the env of the LayerData handed to update (the trait's default update) | Some(entries over all/build/launch/process with byte-string names), 0..3 exec.d programs, 0..3 SBOMs, plain files written into the layer path (also bin/ lib/ include/ pkgconfig/), or an error. Oracle after EVERY call: callback log (which callbacks, once, in order, with which metadata/path, create on an empty directory) == model; Err iff a callback returned Err; disk == model (files bytewise via an independent env renderer, content metadata via Python tomllib, SBOMs); other layers byte-identical; returned LayerData (name, path, types, metadata, env applied for all scopes incl. per-process and unknown process to 3 starting envs, incl. implicit layer paths) == disk. Non-trivial: >= 2 handle_layer calls on the same name separated by a restore, with a layer result that carried a per-process env entry, an SBOM or an exec.d program; distinct = hash of the operation list.");
     ctx.set_exhaustive(true);
     ctx.extra("exhaustive_subspace", json!("histories of length <= 2 (+ a restore in between) over the reduced alphabet; longer histories are sampled"));
     ctx.assume("callbacks obey the trait's documented contract (write only below layer_path, types() pure); the lifecycle is the abstraction of C01's quantifier");
@@ -683,6 +695,13 @@ pub fn history_from_json(v: &Value) -> Vec<Op> {
     v.as_array().unwrap().iter().map(op_from_json).collect()
 }
 
+/// handle_layer on an existing layer with strategy Update whose update returns the env it was handed (the trait's
+/// default update): the layer's environment on disk must survive unchanged
+pub fn inheriting_update_op(name: u8, types: (bool, bool, bool)) -> Op {
+    let res = ResScript { metadata: MetaVal::Generic(TV::table(vec![("k", TV::Int(1))])), env: None, inherit_env: true, execd: vec![], sboms: vec![], plain: vec![], links: vec![] };
+    Op::Handle { name, m: MType::Generic, script: Script { types, strategy: Strat::Update, migrate: Mig::Recreate, create: Some(res.clone()), update: Some(res) } }
+}
+
 /// one handle_layer call whose callbacks never return Err
 pub fn errorless_handle_strategy(nnames: u8) -> impl Strategy<Value = Op> {
     (0..nnames, mtype_strategy(), script_strategy()).prop_map(|(name, m, mut script)| {
@@ -692,7 +711,7 @@ pub fn errorless_handle_strategy(nnames: u8) -> impl Strategy<Value = Op> {
         if script.migrate == Mig::Err {
             script.migrate = Mig::Recreate;
         }
-        let fallback = ResScript { metadata: MetaVal::V1("fallback".into()), env: None, execd: vec![], sboms: vec![], plain: vec![], links: vec![] };
+        let fallback = ResScript { metadata: MetaVal::V1("fallback".into()), env: None, inherit_env: false, execd: vec![], sboms: vec![], plain: vec![], links: vec![] };
         if script.create.is_none() {
             script.create = Some(fallback.clone());
         }
